@@ -70,18 +70,31 @@ def run_one(args):
 
     def remove_tag(self, tag=None):
         tr.ev('tag_remove', (tag, list(self._consumer_tags)))
+        # the client may only forget a consumer the broker has already stopped serving (CancelOk received, broker
+        # cancel, channel closed): otherwise there is a moment at which the broker delivers to a consumer the
+        # client does not list
+        b = ref.get('broker')
+        if b is not None and self.is_open and not b.client_closed:
+            bc = b.channels.get(self.channel_id)
+            live = set(bc['consumers']) if bc and bc['state'] == 'open' else set()
+            gone = set(self._consumer_tags) if tag is None else {tag}
+            early = sorted(gone & live)
+            if early:
+                out['problems'].append(('tag-forgotten-while-broker-still-delivers', early))
         return orig_remove(self, tag)
 
     def scenario(ctx):
         ref['sched'] = ctx.sched
         conn = amqpstorm.Connection('localhost', 'guest', 'guest', heartbeat=0, timeout=1)
         broker = ctx.net.brokers[0]
+        ref['broker'] = broker
         ch = conn.channel(rpc_timeout=3)
         ch.queue.declare('cq')
         ch._consumer_callbacks = LoggingDict(tr.ev)
         ref['chan_lock'] = ch.lock.name
         ref['cid'] = ch.channel_id
         received = []
+        established = set()        # tags whose consume() call has returned
         done = {'adders': 0}
 
         def make_cb(tag_box):
@@ -104,6 +117,7 @@ def run_one(args):
                             tag = ch.basic.consume(make_cb(box), queue, consumer_tag=op[1], no_ack=True)
                             box[0] = tag
                             mine.append(tag)
+                            established.add(tag)
                             if op[1] and tag != op[1]:
                                 out['problems'].append(('consume-returned-other-tag', op[1], tag))
                         elif op[0] == 'cancel-own' and mine:
@@ -131,8 +145,12 @@ def run_one(args):
         def stopper():
             amqpstorm.channel.time.sleep(sc['stopper'])
             try:
+                before = set(established)
                 ch.stop_consuming()
                 out['stopped'] = True
+                bcs = broker.channels.get(ch.channel_id, {'consumers': {}})
+                # consumers that were fully established before the call and that the broker still serves
+                out['at_stop_return'] = (sorted(ch.consumer_tags), sorted(set(bcs['consumers']) & before))
             except amqpstorm.AMQPError as why:
                 out['stop_error'] = repr(why)[:80]
 
@@ -140,6 +158,8 @@ def run_one(args):
             for i in range(sc['feeds']):
                 broker.enqueue('cq', b'm%d' % i)
                 amqpstorm.channel.time.sleep(0.002)
+            if sc.get('cancel_delay'):
+                amqpstorm.channel.time.sleep(sc['cancel_delay'])
             for _ in range(sc['broker_cancels']):
                 c = broker.channels.get(ch.channel_id)
                 tags = sorted(c['consumers']) if c else []
@@ -283,6 +303,21 @@ def check(rep):
         jobs.append((d['scenario'], d['seed']))
     for _ in range(100 if not thorough else 3000):
         jobs.append((make_scenario(rng), rng.randrange(1 << 30)))
+    # the broker (or the application) cancels ONE of several established consumers: the others stay, on both sides
+    for _ in range(40 if not thorough else 600):
+        k = rng.randint(2, 4)
+        seq = [('consume', 'ct%d' % (i + 1) if rng.random() < 0.7 else '') for i in range(k)]
+        own = rng.random() < 0.5
+        if own:
+            seq.append(('cancel-own',))
+        sc = {'adders': [seq], 'stopper': None, 'broker_cancels': 0 if own else 1, 'cancel_delay': 1.0, 'feeds': rng.randint(0, 2),
+              'consumer_thread': rng.random() < 0.5}
+        jobs.append((sc, rng.randrange(1 << 30)))
+    # stop_consuming() while another thread is cancelling the last consumer: when it returns the broker has none left
+    for _ in range(80 if not thorough else 1500):
+        sc = {'adders': [[('consume', 'ct1'), ('cancel-own',)]], 'stopper': rng.choice([0.1, 0.15, 0.2, 0.25, 0.3, 0.35]), 'broker_cancels': 0,
+              'feeds': 0, 'consumer_thread': False, 'single_adder': True, 'fair_time': rng.random() < 0.5, 'p_preempt': 0.3}
+        jobs.append((sc, rng.randrange(1 << 30)))
     # a consumer is added on a queue with a backlog while another thread is consuming: the first delivery
     # follows ConsumeOk at once (is the callback bound before anybody can dispatch it?), under heavy pre-emption
     for _ in range(150 if not thorough else 3000):
@@ -312,6 +347,9 @@ def check(rep):
             forgot = sorted(set(r.get('broker_tags', [])) - set(r.get('client_tags', [])))
             sig = 'C14/client-forgot-active-consumer' if forgot else 'C14/client-keeps-dead-consumer'
             rep.violation(sig, 'at quiescence the client lists %r, the broker has %r' % (r.get('client_tags'), r.get('broker_tags')), replay)
+        if r.get('at_stop_return') and not r['at_stop_return'][0] and r['at_stop_return'][1] and sc.get('single_adder'):
+            rep.violation('C14/stop-returned-while-broker-still-delivers', 'stop_consuming() returned with no consumer listed while the broker '
+                          'still had %r (a cancel was still on its way)' % (r['at_stop_return'][1],), replay)
         if r.get('final_stop') == 'returned' and r.get('after_stop') and (r['after_stop'][0] or r['after_stop'][1]):
             rep.violation('C14/stop-consuming-leaves-consumers', 'after stop_consuming() returned the client lists %r and the broker still '
                           'delivers to %r' % (r['after_stop'][0], r['after_stop'][1]), replay)
